@@ -35,6 +35,15 @@ CHECKS = {
                  "forest in the explored space are compared in TLA+ with the tree set the recorded DAG represents and with the reference count.",
         "note": _GLR_NOTE + " Tree sets are materialised up to 60 trees; above that saturating counts and residues modulo four 15-bit primes.",
     },
+    "C04": {
+        "engine": "tlc-trace", "design_ref": "DESIGN.md 3.4, 7 C04",
+        "technique": "LRCheck.tla: recorded Parser(build_tree=True) outcomes judged against the TLA+ chart reference (CFG.tla) and against the GLR outcome on the same input; table determinism read from the real cells, TLC",
+        "level": "For every option combination under which Parser constructs and every input of the explored space: an accepted input is a sentence and the "
+                 "returned tree is a valid derivation (TLA+ Derivation); on deterministic unresolved tables: every sentence is accepted, has exactly one "
+                 "reference derivation, and GLRParser returns exactly that tree.",
+        "note": "Trusted: TLC, tree/table projection, lattice from real recognizers. Bounded: F(3,3), F(4,2) over 3 nonterminals (fixed-seed samples), inputs <= 4 tokens "
+                "with layout renderings, seeded random grammars; four (tables, prefer_shifts, prefer_shifts_over_empty) combinations.",
+    },
     "C05": {
         "engine": "tlc-trace", "design_ref": "DESIGN.md 3.3, 7 C05",
         "technique": "TLA+ canonical LR(1) reference (LR1.tla) walked in lock-step with every real LALR/SLR table (LRWalk.tla product states), TLC; termination by reference-derived state budget hook",
@@ -43,6 +52,24 @@ CHECKS = {
                  "states, conflict reports agree with the multi-action cells.",
         "note": "Trusted: TLC, the table projection (harness/real.table_json). Bounded: F(3,3), F(4,2), F(4,3) over 3 nonterminals sampled with fixed seeds, "
                 "seeded random grammars up to 8 productions; main and LAYOUT start productions; no claim beyond the bound.",
+    },
+    "C08": {
+        "engine": "tlc-trace", "design_ref": "DESIGN.md 7 C08, Appendix A (Check/LeafPath)",
+        "technique": "LRCheck.tla PosCheck/Lossless/LeafTokens on recorded LR trees and GLR trees; GLRCheck.tla position clauses (PosNodeAlts/PosChain/PosLeaves) on every alternative of recorded forests, TLC",
+        "level": "Every tree built by the LR parser and sampled trees of every GLR forest, and every packed alternative of every recorded forest, are checked in TLA+: "
+                 "integer in-bounds spans, leaf value = input slice, siblings ordered/disjoint, children inside parents, leaves form the lattice path, "
+                 "layout_content + value concatenation reproduces the input.",
+        "note": "Trusted: TLC, tree projection (real.dump_tree reads start/end/layout_content/value through the public node API). ws-based layout; positions seen by actions are "
+                "covered by C09, LAYOUT-rule layout by C14.",
+    },
+    "C10": {
+        "engine": "tlc-trace", "design_ref": "DESIGN.md 7 C10, Appendix A (Earley)",
+        "technique": "Earley.tla longest-viable-prefix / expected-terminal reference + LineCol in TLA+ vs recorded SyntaxError objects of LR and GLR runs (LRCheck!ErrClauses), TLC",
+        "level": "Every non-sentence of the explored space must raise parglare.SyntaxError (GLR; LR on exact tables) at the lattice node after the longest viable "
+                 "prefix, with matching line/column, end-of-file wording iff at the end, renderable text, and for GLR symbols_expected = the terminals that "
+                 "can legally follow; LR with resolved conflicts: SyntaxError or DisambiguationError only.",
+        "note": "Trusted: TLC, exception projection (harness/real.exc_json). Terminals without lexical overlap (single token path); STOP ignored in symbols_expected; "
+                "list (non-string) inputs are exercised by C07's custom-recognizer cases.",
     },
     "C17": {
         "engine": "tlc-trace", "design_ref": "DESIGN.md 7 C17",
